@@ -220,14 +220,19 @@ PAIRS = [
     ("extrap_nearest", "interp_nearest", {}, None),
     ("extrap_linear_forward", "interp_linear", {}, "ts_nonzero"),
     ("extrap_linear_backward", "interp_linear", {}, "ts_not_dt"),
+    ("extrap_linear_forward", "interp_linear", {"adjust": "<adjust>"}, "ts_nonzero"),
+    ("extrap_linear_backward", "interp_linear", {"adjust": "<adjust>"}, "ts_not_dt"),
     ("extrap_expdecay", "interp_expdecay", {"time_constant": "tc"}, None),
     ("extrap_expratedecay", "interp_expratedecay", {"rate_constant": "rc"}, None),
 ]
 
 
 def _mk_pair(ex_name, in_name, kw, cond, prop=P):
-    @contract(prop, f"pair[{ex_name},{in_name}]", [(FE, ex_name), (FI, in_name)], tags=("kernel",))
+    adj = "adjust" in kw
+    @contract(prop, f"pair[{ex_name},{in_name}]" + ("[adjust]" if adj else ""), [(FE, ex_name), (FI, in_name)], tags=("kernel",))
     def pair(c, ex_name=ex_name, in_name=in_name, kw=kw, cond=cond):
+        """`[adjust]`: the optional `adjust` callable is an uninterpreted element-wise function f; the endpoints must be the
+        documented ones (slope taken from the ADJUSTED endpoint) and the round trip must still return the sample"""
         x, p, n, ts = c.pw("x"), c.pw("p"), c.pw("n"), c.pw("ts")
         dt = c.real("dt")
         c.require(dt > 0, ts.f >= 0, ts.f <= dt.z)
@@ -235,17 +240,29 @@ def _mk_pair(ex_name, in_name, kw, cond, prop=P):
             c.require(ts.f > 0)
         if cond == "ts_not_dt":
             c.require(ts.f < dt.z)
-        kws = {}
+        kws, ikws = {}, {}
+        ADJ = z3.Function("adjust_fn", z3.RealSort(), z3.RealSort())
         for k, v in kw.items():
+            if v == "<adjust>":
+                kws[k] = Model(lambda it, t: t.float()._map(lambda e: ADJ(e), "float"), "adjust")
+                continue
             sv = c.real(v)
             c.require(sv > 0)
             kws[k] = sv
+            ikws[k] = sv
         ex = c.function(FE, ex_name)
         it = c.function(FI, in_name)
         out = c.outcome(ex, x, ts, p, n, dt, **kws)
         c.expect_return(out)
         p1, n1 = out.value
-        back = c.outcome(it, p1, n1, ts, dt, **kws)
+        if "adjust" in kws:
+            if ex_name == "extrap_linear_forward":
+                fp = ADJ(p.f)
+                c.ensure("documented_endpoints_with_adjust", z3.And(p1.f == fp, n1.f == fp + (x.f - fp) / ts.f * dt.z))
+            else:
+                fn_ = ADJ(n.f)
+                c.ensure("documented_endpoints_with_adjust", z3.And(n1.f == fn_, p1.f == fn_ - (fn_ - x.f) / (dt.z - ts.f) * dt.z))
+        back = c.outcome(it, p1, n1, ts, dt, **ikws)
         c.expect_return(back)
         c.ensure("interp_of_extrap_is_sample", back.value.f == x.f)
         c.canary("canary_returns_prev", back.value.f == p.f)
@@ -327,6 +344,8 @@ def default_offset(c):
 
 
 MUTANTS = [
+    dict(file=FE, func="extrap_linear_forward", old="    prev_data = adjust(prev_data) if adjust else prev_data\n    slope = (sample - prev_data) / sample_at", new="    slope = (sample - prev_data) / sample_at\n    prev_data = adjust(prev_data) if adjust else prev_data", contracts=["pair[extrap_linear_forward,interp_linear][adjust]"], name="seed C02e: slope taken from the unadjusted older endpoint"),
+    dict(file=FE, func="extrap_linear_backward", old="    next_data = adjust(next_data) if adjust else next_data\n    slope = (next_data - sample) / (step_time - sample_at)", new="    slope = (next_data - sample) / (step_time - sample_at)\n    next_data = adjust(next_data) if adjust else next_data", contracts=["pair[extrap_linear_backward,interp_linear][adjust]"], name="seed C20e: slope taken from the unadjusted newer endpoint"),
     dict(file=_F, func="RecordTensor.select", old="        offset: int = 1,\n        interp_kwargs", new="        offset: int = 0,\n        interp_kwargs", contracts=["RecordTensor.select/insert[default offset]"], name="select: default offset changed"),
     dict(file=_F, func="RecordTensor.select", old="torch.where(torch.abs(dt * shiftr - time) <= tolerance, shiftr, shift),", new="torch.where(torch.abs(dt * shiftr - time) < tolerance, shiftr, shift),", contracts=["RecordTensor.select[tensor]"], name="seed C06: tensor-time tolerance test <= -> <"),
     dict(file=_F, func="RecordTensor.select", old="prev_idx, next_idx = offset.ceil(), offset.floor()", new="prev_idx, next_idx = offset.floor(), offset.ceil()", contracts=["RecordTensor.select[tensor]"], name="tensor select: brackets swapped"),
